@@ -5,7 +5,7 @@ from __future__ import annotations
 
 import ast
 from inspect import Parameter as SignatureParameter
-from inspect import Signature, cleandoc, getsourcelines
+from inspect import Signature, getsourcelines
 from inspect import signature as getsignature
 from typing import TYPE_CHECKING, Any
 
@@ -156,18 +156,16 @@ class Inspector:
             value = getattr(node.obj, "__doc__", None)
         except Exception:  # noqa: BLE001
             return None
-        if value is None:
+        if not isinstance(value, str):
+            # `None`, or non-string values (seen on method descriptors).
             return None
-        try:
-            # We avoid `inspect.getdoc` to avoid getting
-            # the `__doc__` attribute from a parent class,
-            # but we still want to clean the doc.
-            cleaned = cleandoc(value)
-        except AttributeError:
-            # Triggered on method descriptors.
-            return None
+        # We avoid `inspect.getdoc` to avoid getting
+        # the `__doc__` attribute from a parent class.
+        # The value is not cleaned here: `Docstring` cleans it itself,
+        # and cleaning twice dedents the lines following the first one twice
+        # (`inspect.cleandoc` is not idempotent when the first line is blank or indented).
         return Docstring(
-            cleaned,
+            value,
             parser=self.docstring_parser,
             parser_options=self.docstring_options,
         )
